@@ -165,6 +165,11 @@ func yaccgoPath() string {
 
 // runCLI runs the real yaccgo binary under RLIMIT_CPU (seconds) in dir.
 func runCLI(cpuLimit int, wall time.Duration, dir string, args ...string) cliResult {
+	// the CPU limit is the budget; the wall-clock watchdog only ends runs that are blocked without using
+	// CPU, and must not fire because the machine is busy: never less than 15 minutes
+	if wall < 15*time.Minute {
+		wall = 15 * time.Minute
+	}
 	sh := fmt.Sprintf("ulimit -t %d; exec \"$0\" \"$@\"", cpuLimit)
 	cmd := exec.Command("bash", append([]string{"-c", sh, yaccgoPath()}, args...)...)
 	cmd.Dir = dir
